@@ -667,6 +667,30 @@ func ruleCacheDeposit(c *Ctx) {
 		c.bad("ProcessDeposit.cache-upkeep", cacheAdd.Pos(), "cache is extended before the state accepted the validator")
 	default:
 		c.ok("ProcessDeposit.cache-upkeep", cacheAdd.Pos(), "state.AddValidator, then cache.AddValidator, result stored into epc.ValidatorPubkeyCache")
+		// once the state has the validator, no path reports success without having gone through the cache's
+		// AddValidator: that call is where a conflicting entry of a sibling history is seen and the handle forks out
+		rets, fell, okW := returnsAvoiding(fd.Body, stateAdd, cacheAdd)
+		switch {
+		case !okW:
+			c.unm("ProcessDeposit.cache-always", stateAdd.Pos(), "state.AddValidator is not on the control-flow graph of ProcessDeposit (made in a function literal?)")
+		default:
+			var leak *ast.ReturnStmt
+			for _, r := range rets {
+				if len(r.Results) == 0 {
+					continue
+				}
+				if id, isId := ast.Unparen(r.Results[len(r.Results)-1]).(*ast.Ident); isId && id.Name == "nil" {
+					leak = r
+				}
+			}
+			if leak != nil {
+				c.bad("ProcessDeposit.cache-always", leak.Pos(), "ProcessDeposit can report success for a new validator without calling PubkeyCache.AddValidator: an index another history filled with a different key is then never noticed, and the context keeps answering with the sibling's pairs")
+			} else if fell {
+				c.unm("ProcessDeposit.cache-always", stateAdd.Pos(), "a path falls off the end of the body after state.AddValidator without the cache call")
+			} else {
+				c.ok("ProcessDeposit.cache-always", cacheAdd.Pos(), "every success return after state.AddValidator is behind PubkeyCache.AddValidator")
+			}
+		}
 	}
 }
 
